@@ -640,7 +640,8 @@ class TerminalTreeToPattern(Transformer_NonRecursive):
         if len(items) == 1:
             return items[0]
 
-        pattern = ''.join(i.to_regexp() for i in items)
+        # A regexp written by the user may be an alternation (/a|b/): group it, so that it concatenates as a unit
+        pattern = ''.join('(?:%s)' % i.to_regexp() if isinstance(i, PatternRE) else i.to_regexp() for i in items)
         return _make_joined_pattern(pattern, {i.flags for i in items})
 
     def expansions(self, exps: List[Pattern]) -> Pattern:
